@@ -202,9 +202,10 @@ func (f *witness) Exec(r *hx.Run, op []string) string {
 	if !ok {
 		return "bad-op"
 	}
-	if strings.Join(model, " ") != strings.Join(f.modelFields(c), " ") {
-		return "bad-op" // stale model fields (the state they were computed in is not the state of this replay)
-	}
+	// stale model fields: the line was recorded on another tree or state (replay of a finding after the code changed).
+	// The call is still executed and the property evaluated on its real outcome; the outcome line says `stale-op` because
+	// a comparison with a model fed with outdated observations would be meaningless.
+	stale := strings.Join(model, " ") != strings.Join(f.modelFields(c), " ")
 	opBefore, dueBefore := f.w.operator(), f.w.due()
 	out := f.w.invoke(c.signers, c.via, c.spec.contract, c.spec.method, c.spec.args(c.owner, c.variant), c.commit)
 	cls := out.class()
@@ -257,6 +258,12 @@ func (f *witness) Exec(r *hx.Run, op []string) string {
 			o := c.owner
 			f.candOwner = &o
 		}
+	}
+	if stale {
+		if cls == "reject:witness" && out.writes != 0 {
+			r.Viol("C18:write-before-guard:"+id, fmt.Sprintf("%s was rejected for lack of witness after writing %d storage entries", c.spec.id, out.writes))
+		}
+		return "stale-op"
 	}
 	if cls == "reject:witness" {
 		if out.writes != 0 {
